@@ -56,6 +56,8 @@ type FuncContract struct {
 	Props      []string // property ids this function is claimed under ("prop C13")
 	Lemma      bool
 	Tier       string // "thorough": only checked in the thorough tier
+	Expand     bool     // lemma: prove by expanding quantifiers over constant ranges
+	Uses       []string // lemmas assumed in this function
 	Params     []SpecParam // for lemmas
 }
 
@@ -290,6 +292,10 @@ func ParseContractFile(path string) (*ContractFile, error) {
 			switch kw {
 			case "mode":
 				cur.Mode = rest
+			case "expand":
+				cur.Expand = true
+			case "uses":
+				cur.Uses = append(cur.Uses, strings.Fields(rest)...)
 			case "tier":
 				cur.Tier = rest
 			case "prop":
